@@ -226,6 +226,9 @@ def make_files(base, cuts):
 # fragments read through the REAL openResource (temp files, utf-8): a line starting with a character
 # that a decoder or a line reader might treat specially; the cut starts exactly at that line
 REALFILE_STARTS = ['\ufeff', '\u00a0', '\u2028', '\x0c', '\x1c', '\x85', '\ufffe', '#', ' ']
+# ... and the characters str.splitlines() treats as line boundaries in the MIDDLE of a value (they are not line
+# ends for the reader)
+REALFILE_MIDS = ['\u2028', '\u2029', '\x85', '\x0c', '\x0b', '\x1c', '\x1d', '\x1e']
 
 
 class C06(P.TextMixin, Harness):
@@ -272,7 +275,7 @@ class C06(P.TextMixin, Harness):
                            ('B3', [(MAINNAME, 1, 5, 'inc.conf')]), ('B4', [(MAINNAME, 3, 6, 'x/inc.conf')])):
             sid, files = make_files(base, cuts)
             us.append({'schema': sid, 'files': files, 'balanced': True, 'base': base, 'urlstyle': 'path'})
-        for i in range(len(REALFILE_STARTS)):
+        for i in range(len(REALFILE_STARTS) + len(REALFILE_MIDS)):
             us.append({'schema': 'S2', 'realfile': i, 'files': [], 'balanced': True, 'base': 'realfile'})
         # the includer reached through a symbolic link into another directory: references are relative
         # to the URL the resource was loaded by (the link), not to where the file is stored
@@ -323,8 +326,12 @@ class C06(P.TextMixin, Harness):
         import shutil
         import tempfile
         import ZConfig
-        ch = REALFILE_STARTS[unit['realfile']]
-        frag = [ch + 'kt 5', '<ta n1>', '  ka 1', '</ta>']
+        if unit['realfile'] < len(REALFILE_STARTS):
+            ch = REALFILE_STARTS[unit['realfile']]
+            frag = [ch + 'kt 5', '<ta n1>', '  ka 1', '</ta>']
+        else:
+            ch = REALFILE_MIDS[unit['realfile'] - len(REALFILE_STARTS)]
+            frag = ['kt 5', 'zq a' + ch + 'b c', '<ta n1>', '  ka 1', '  kb x' + ch + '(y)', '</ta>']
         schema = P.load_schema(self._xml(unit))
         try:
             if not included:
